@@ -39,6 +39,7 @@ def gen_knobs(rng, profile=None):
         "cfg_dialect": rng.random() < 0.25,
         "cfg_opts": rng.random() < 0.4,
         "sub_in_base": rng.random() < 0.3,
+        "subclass_values": True,
         "inherit": rng.random() < 0.5,
         "n_outer": rng.randint(1, 3),
         "n_leaf": rng.randint(1, 2),
@@ -51,6 +52,12 @@ def gen_knobs(rng, profile=None):
     }
     if "Dict" not in kn["formats"] and rng.random() < 0.5:
         kn["formats"] = sorted(kn["formats"] + ["Dict"])
+    # runs that avoid the feature combinations of *open* known findings explore
+    # deeper; the rest re-observe them (DESIGN 5.2).  Drawn unconditionally.
+    avoid_roll = rng.random()
+    if profile.get("avoid_open") and avoid_roll < 0.8:
+        for feat in profile["avoid_open"]:
+            kn[feat] = False
     kn.update(profile.get("force", {}))
     for feat in profile.get("avoid", []):
         kn[feat] = False
@@ -533,6 +540,39 @@ def gen_value(rng, fam, t, defined, depth=0, kn=None, discr=None):
     raise ValueError(t)
 
 
+def has_subclass_instance(fam, v, t, tvmap=None):
+    """does value `v`, declared as type `t`, hold an instance whose class is not
+    the declared class (so that packing dispatches on the instance's class)?"""
+    if not isinstance(v, list) or not v:
+        return False
+    t = subst(t, tvmap) if tvmap else t
+    k = v[0]
+    if k == "o":
+        decl = t
+        while decl[0] in ("opt", "ann"):
+            decl = decl[1]
+        if decl[0] == "union":
+            return False
+        if decl[0] not in ("cls", "gen") or decl[1] != v[1]:
+            return True
+        tv = None
+        if decl[0] == "gen":
+            tv = dict(zip(fam.cls(decl[1]).get("tvars", []), decl[2]))
+        fdefs = {f["n"]: f for f in fam.all_fields(v[1])}
+        return any(n in fdefs and has_subclass_instance(fam, x, fdefs[n]["t"], tv)
+                   for n, x in v[2])
+    inner = t
+    while inner[0] in ("opt", "ann"):
+        inner = inner[1]
+    if k in ("l",) and inner[0] == "list":
+        return any(has_subclass_instance(fam, x, inner[1]) for x in v[1])
+    if k == "m" and inner[0] == "dict":
+        return any(has_subclass_instance(fam, x, inner[1]) for _, x in v[1])
+    if k == "t" and inner[0] == "tuple":
+        return any(has_subclass_instance(fam, x, tt) for x, tt in zip(v[1], inner[1:]))
+    return False
+
+
 def date_fmt(fam, cname, call_dialect):
     cfg = fam.cfg(cname)
     if call_dialect and fam.dialect_support(cname):
@@ -698,6 +738,9 @@ def gen_call(rng, fam, kn, defined, cname=None, method=None, allow_bad=True):
         v = gen_value(rng, fam, t, defined, kn=kn)
     except Unbuildable:
         v = None
+    if (method.startswith("to_") and v is not None and not kn.get("subclass_values", True)
+            and has_subclass_instance(fam, v, t)):
+        v = None  # decode instead: packing would dispatch on the instance's class
     if method.startswith("to_"):
         if v is None:
             # cannot build an instance yet (needs an undefined class): decode instead
@@ -764,13 +807,19 @@ def gen_codec_op(rng, fam, kn, defined, codecs):
             v = gen_value(rng, fam, op["shape"], defined, kn=kn)
         except Unbuildable:
             v = None
-            if op["dir"] == "enc":
-                op = None
+        if (v is not None and not kn.get("subclass_values", True)
+                and has_subclass_instance(fam, v, op["shape"])):
+            v = None
+        if v is None and op["dir"] == "enc":
+            op = None
     if op is None:
         shape = gen_shape(rng, fam, kn, defined)
         try:
             v = gen_value(rng, fam, shape, defined, kn=kn)
         except Unbuildable:
+            v = None
+        if (v is not None and not kn.get("subclass_values", True)
+                and has_subclass_instance(fam, v, shape)):
             v = None
         op = {"k": "codec", "id": len(codecs), "fmt": rng.choice(CODEC_FMTS),
               "dir": rng.choice(["enc", "dec"]) if v is not None else "dec",
